@@ -201,7 +201,7 @@ MANIFEST = dict(
         "equal-cost shortcut (so that an error count is never rescaled by a cost and equals the Levenshtein count for "
         "equal costs), axis agreement and option binding of the minimum-error-rate loss, and the batch-mixing rule. "
         "Structural clauses of C02; that the mistakes table follows a minimum-cost alignment is decided by interpreting the whole kernel over "
-        "exact values on a finite grid (51 rows: the count lies between the fewest and the most edits of the minimum-cost alignments), not for all lengths."),
+        "exact values on a finite grid (51 rows: the count lies between the fewest and the most edits of the minimum-cost alignments), not for all lengths. The edit-count table has per-prefix rows in both layouts (each prefix within the fewest .. most edits of its optimal alignments, padding behind the hypothesis)."),
     level_note="Trusted: python ast; docstring tables as oracle.",
     technique="static analysis: argument binding, guard/def-use ordering rules, axis-agreement tables, enum dispatch coverage; interpretation of the loss over exact tensor values (syntax tree only) compared with the documented value for every reduction / layout; the whole kernel interpreted the same way against a per-pair alignment oracle on a finite grid",
     design_ref="DESIGN.md section 4 C02",
